@@ -153,3 +153,62 @@ def bell_222_max(j, a, b, av, bv, grid=90):
         res = minimize(lambda v: -np.linalg.eigvalsh(bell_op(v[0], v[1]))[-1], [g[it], g[ip]], method="Nelder-Mead", options={"xatol": 1e-9, "fatol": 1e-12})
         best = max(best, -float(res.fun))
     return float(max(best, vals.max()))
+
+
+def schmidt_number_upper_bound(x, da, db, k):
+    """Rigorous upper bound on max Tr(X rho) over states rho of Schmidt number <= k (X Hermitian on C^da (x) C^db), hence on <v|X|v> for every unit
+    vector v of Schmidt rank <= k.
+
+    A state of Schmidt number <= k satisfies k (rho_A (x) 1) - rho >= 0 and k (1 (x) rho_B) - rho >= 0 (the map Y -> k Tr(Y) 1 - Y is k-positive), and for
+    k = 1 its partial transpose is positive.  A solver proposes multipliers for these conditions; the bound returned is the largest eigenvalue of
+    X + sum_i C_i^*(Z_i) for the positive parts Z_i of the proposed multipliers, computed with numpy - valid for ANY positive Z_i, so the solver's accuracy
+    and its scaling conventions for complex cone constraints (the multipliers are tried at scales 1/2, 1, 2) affect only how tight the bound is.
+    Returns (solver value, certified bound)."""
+    import itertools
+
+    import cvxpy as cp
+
+    n = da * db
+    x = ref.herm(np.asarray(x, dtype=complex))
+    eye_a, eye_b = np.eye(da), np.eye(db)
+    e_b = [np.kron(eye_a, eye_b[j:j + 1, :]) for j in range(db)]  # (da x n): <j| on the second factor
+    e_a = [np.kron(eye_a[i:i + 1, :], eye_b) for i in range(da)]  # (db x n): <i| on the first factor
+    rho = cp.Variable((n, n), hermitian=True)
+    ra = sum(m @ rho @ m.T for m in e_b)
+    rb = sum(m @ rho @ m.T for m in e_a)
+    c_a = k * cp.kron(ra, eye_b) - rho >> 0
+    c_b = k * cp.kron(eye_a, rb) - rho >> 0
+    cons = [rho >> 0, cp.real(cp.trace(rho)) == 1, c_a, c_b]
+    c_p = None
+    if k == 1:
+        units = [np.kron(eye_a, np.outer(eye_b[i], eye_b[j])) for i in range(db) for j in range(db)]
+        c_p = sum(u @ rho @ u for u in units) >> 0  # partial transpose on the second factor
+        cons.append(c_p)
+    prob = cp.Problem(cp.Maximize(cp.real(cp.trace(x @ rho))), cons)
+    val = prob.solve()
+    if prob.status not in ("optimal", "optimal_inaccurate") or val is None or not np.isfinite(val):
+        return None, None
+
+    def psd(z):
+        z = ref.herm(np.asarray(z, dtype=complex))
+        w, v = np.linalg.eigh(z)
+        return (v * np.clip(w, 0, None)) @ v.conj().T
+
+    def tr_b(z):
+        return np.einsum("ijkj->ik", z.reshape(da, db, da, db))
+
+    def tr_a(z):
+        return np.einsum("ijil->jl", z.reshape(da, db, da, db))
+
+    def pt_b(z):
+        return z.reshape(da, db, da, db).transpose(0, 3, 2, 1).reshape(n, n)
+
+    duals = [psd(c.dual_value) for c in ([c_a, c_b] + ([c_p] if c_p is not None else []))]
+    best = float(np.linalg.eigvalsh(x).max())  # Z_i = 0: the operator norm bound
+    for scales in itertools.product((0.5, 1.0, 2.0), repeat=len(duals)):
+        wa, wb = scales[0] * duals[0], scales[1] * duals[1]
+        m = x + k * np.kron(tr_b(wa), eye_b) - wa + k * np.kron(eye_a, tr_a(wb)) - wb
+        if c_p is not None:
+            m = m + pt_b(scales[2] * duals[2])
+        best = min(best, float(np.linalg.eigvalsh(ref.herm(m)).max()))
+    return float(val), best
